@@ -15,7 +15,9 @@
 //! emitted (the aggregates are read right after it returns); after the last handle is dropped the
 //! rest is emitted exactly once and the worker thread drops its inner sink (waited for ≤ 20 s).
 //! For `timed`/`mt` (epoch boundaries unknown) the totals over all emitted aggregates are conserved
-//! per key and a key appears at most once between two flush boundaries that can be told apart.
+//! per key, the keep-last of a key's final aggregate is some producer's last input, and with one
+//! producer the aggregates of a key are consecutive non-empty chunks of its inputs; the Lean trace
+//! predicate `Spec.traceOk` is evaluated on the same trace.
 //! Correspondence: the canonical observation string of the run must equal the Lean model's reply.
 
 use metrique::unit_of_work::metrics;
